@@ -58,7 +58,8 @@ fn main() {
         }
         Err(e) => {
             if e.downcast_ref::<native::AssumeFailed>().is_some() {
-                result = "NOT-APPLICABLE";
+                // an assumption placed AFTER a failed check does not excuse it (assumptions are not retroactive)
+                result = if failed.is_empty() { "NOT-APPLICABLE" } else { "VIOLATES" };
             } else {
                 result = "VIOLATES";
                 panic_msg = if let Some(s) = e.downcast_ref::<&str>() {
